@@ -314,6 +314,68 @@ class NB:
         self.extra_outputs = getattr(self, "extra_outputs", []) + outs[1:]
         return outs[0]
 
+    def transpose(self, x):
+        d, st = self.draw, self.st
+        X = self.info(x)
+        r = len(X["shape"])
+        perms = {4: [[0, 2, 1, 3], [0, 2, 1, 3], [0, 1, 3, 2], [0, 3, 1, 2], [0, 2, 3, 1]], 3: [[1, 0, 2], [0, 2, 1], [2, 1, 0]], 2: [[1, 0]]}.get(r)
+        if not perms:
+            return self.unary(x, "RELU", same_q=True)
+        perm = d(st.sampled_from(perms))
+        so = [X["shape"][i] for i in perm]
+        o = self.out("transpose", so, X["dtype"], (X["scale"], X["zp"]))
+        self.op("TRANSPOSE", [x, self.const_i32("perm", perm)], [o], "TransposeOptions", {}, version=2)
+        return o
+
+    def pack(self, x):
+        d, st = self.draw, self.st
+        X = self.info(x)
+        if len(X["shape"]) > 3:
+            return self.reshape(x)
+        n = d(st.integers(1, 3))
+        ins = [x]
+        for _ in range(n - 1):
+            t = self.t("in", X["shape"], X["dtype"], X["scale"], X["zp"])
+            self.inputs.append(t)
+            ins.append(t)
+        axis = d(st.integers(0, len(X["shape"])))
+        so = X["shape"][:axis] + [n] + X["shape"][axis:]
+        o = self.out("pack", so, X["dtype"], (X["scale"], X["zp"]))
+        self.op("PACK", ins, [o], "PackOptions", dict(ValuesCount=n, Axis=axis), version=2)
+        return o
+
+    def unpack(self, x):
+        d, st = self.draw, self.st
+        X = self.info(x)
+        shape = X["shape"]
+        cands = [a for a in range(len(shape)) if 1 <= shape[a] <= 4 and len(shape) > 1]
+        if not cands:
+            return self.sslice(x)
+        axis = d(st.sampled_from(cands))
+        so = shape[:axis] + shape[axis + 1:]
+        outs = [self.out("unpack", so, X["dtype"], (X["scale"], X["zp"])) for _ in range(shape[axis])]
+        self.op("UNPACK", [x], outs, "UnpackOptions", dict(Num=shape[axis], Axis=axis), version=2)
+        self.extra_outputs = getattr(self, "extra_outputs", []) + outs[1:]
+        return outs[0]
+
+    def split_v(self, x):
+        d, st = self.draw, self.st
+        X = self.info(x)
+        shape = X["shape"]
+        axis = d(st.integers(1 if len(shape) > 1 else 0, len(shape) - 1))
+        if shape[axis] < 2:
+            return self.sslice(x)
+        a = d(st.integers(1, shape[axis] - 1))
+        sizes = [a, shape[axis] - a]
+        outs = []
+        for sz in sizes:
+            so = list(shape)
+            so[axis] = sz
+            outs.append(self.out("splitv", so, X["dtype"], (X["scale"], X["zp"])))
+        self.op("SPLIT_V", [x, self.const_i32("sizes", sizes), self.t("axis", [], "int32", data=dict(values=[axis]))], outs, "SplitVOptions", dict(NumSplits=2), version=2)
+        self.extra_outputs = getattr(self, "extra_outputs", []) + outs[1:]
+        return outs[0]
+
     def quantize(self, x):
         d, st = self.draw, self.st
         X = self.info(x)
@@ -457,7 +519,8 @@ def network(profile="exact", max_ops=6, dtypes=("int8", "int8", "int8", "uint8",
             menu = ["conv", "conv", "conv", "dw", "dw", "maxpool", "add_const", "relu", "add", "avgpool_valid", "padconv"]
             n_ops = draw(st.integers(2, max_ops))
         if profile == "slices":  # exact-class operators fed by SLICE/STRIDED_SLICE/SPLIT/CONCATENATION/PAD/RESHAPE: read and write offsets on every kind of consumer
-            menu = ["sslice", "sslice", "split", "concat", "pad", "reshape", "conv", "conv", "dw", "maxpool", "avgpool_valid", "relu", "relu6", "add", "mul", "fc", "padconv", "quantize", "maximum"]
+            menu = ["sslice", "sslice", "split", "concat", "pad", "reshape", "conv", "conv", "dw", "maxpool", "avgpool_valid", "relu", "relu6", "add", "mul", "fc", "padconv", "quantize", "maximum",
+                    "transpose", "transpose", "pack", "unpack", "split_v", "split_v"]
             n_ops = draw(st.integers(2, max_ops))
         approx_tail = None
         if profile == "approx":  # exact-class body, one approximate-class operator in tail position (only memory-only operators may follow)
@@ -544,6 +607,14 @@ def network(profile="exact", max_ops=6, dtypes=("int8", "int8", "int8", "uint8",
                 cur = nb.sslice(cur)
             elif kind == "split":
                 cur = nb.split(cur)
+            elif kind == "transpose":
+                cur = nb.transpose(cur)
+            elif kind == "pack":
+                cur = nb.pack(cur)
+            elif kind == "unpack":
+                cur = nb.unpack(cur)
+            elif kind == "split_v":
+                cur = nb.split_v(cur)
             elif kind == "mean":
                 cur = nb.mean(cur)
             elif kind in ("resize_nearest", "resize_bilinear"):
